@@ -35,8 +35,20 @@ class CallGraph:
                 self._prop_names.setdefault(f.name, []).append(f)
         for f in list(prog.functions.values()):
             self._build(f)
+        from .inline import inline_private_helpers
+        self.inlined = inline_private_helpers(self)
         self.param_order = {}   # id(call node) -> positional parameter names of the callee(s) (self dropped)
         self._normalise_calls()
+
+    def rebuild(self, f):
+        """Recompute the outgoing edges of f after its syntax tree was changed."""
+        for kind, callee, node in self.edges.pop(f, []):
+            lst = self.callers.get(callee, [])
+            lst[:] = [(k, c, n) for (k, c, n) in lst if c is not f]
+        self.unresolved.pop(f, None)
+        if hasattr(f, "_params_cache"):
+            del f._params_cache
+        self._build(f)
 
     # ------------------------------------------------------------------
     def _normalise_calls(self):
